@@ -791,5 +791,9 @@ def run(ctx):
     from .. import cxa as _cxa
     borrow(ctx, "C16", c01.rule_phase, ctx.cx, _cxa.Effects(ctx.cx))
     from .. import lints
+    # shared clause: the graph engine's edge constants are the kinetics formula, source and destination not exchanged
+    # (C02.ANTISYM): the identity map turns a grid run into a graph run that must reproduce it
+    from . import c02 as _c02
+    borrow(ctx, "C16", _c02.rule_antisym, ctx.cx)
     lints.run(ctx, "C16", ctx.py, ["simulate", "coarsegrain"], truth_floor=3)
     ctx.assume("conservation totals, centroid distances and identity-map equivalence are value-level and not decided")
